@@ -93,6 +93,38 @@ def absRat (x : Rat) : Rat := if x < 0 then -x else x
 def withinHalfUlp (p : Nat) (a b : Rat) : Bool :=
   decide (absRat (a - b) ≤ (1/2 : Rat) / ((10 ^ p : Nat) : Rat))
 
+/-! ## text layers -/
+
+/-- `;;` occurs in the string (it starts a comment in a ctm file). -/
+def hasComment : List Char → Bool
+  | [] => false
+  | [_] => false
+  | c :: d :: rest => (c == ';' && d == ';') || hasComment (d :: rest)
+
+/-- A printable ctm column: non-empty, no white space, no `;;`. -/
+def ctmFieldOk (s : List Char) : Bool :=
+  !s.isEmpty && s.all (fun c => !isPyWhite c) && !hasComment s
+
+/-- A printable ctm line: three printable columns, two non-negative decimals. -/
+def SegTOk (wfn chan tok : List Char) (start dur : Dec) : Bool :=
+  ctmFieldOk wfn && ctmFieldOk chan && ctmFieldOk tok && decide (0 ≤ start.mant) && decide (0 ≤ dur.mant)
+
+/-- A TextGrid label the format can hold: no `"` (the writer does not escape it) and no carriage
+return (text-mode reading turns it into a new line); new lines are fine. -/
+def tgLabelOk (s : String) : Bool := s.toList.all (fun c => c != '"' && c != '\r')
+
+/-- A tier name: no line break. -/
+def tgNameOk (s : String) : Bool := s.toList.all (fun c => c != '\n' && c != '\r')
+
+def TgBody.textOk : TgBody → Bool
+  | .points l => l.all (fun e => decide (0 ≤ e.1.mant) && tgLabelOk e.2)
+  | .intervals l => l.all (fun e => decide (0 ≤ e.1.mant) && decide (0 ≤ e.2.1.mant) && tgLabelOk e.2.2)
+
+/-- A structured file whose text reads back as itself: non-negative numbers, printable name and labels. -/
+def TgFile.textOk (f : TgFile) : Bool :=
+  decide (0 ≤ f.xmin.mant) && decide (0 ≤ f.xmax.mant) && decide (0 ≤ f.tmin.mant) && decide (0 ≤ f.tmax.mant) &&
+  tgNameOk f.name && f.body.textOk
+
 /-! ## frames -/
 
 /-- `|a - b| < shift`. -/
